@@ -5,6 +5,8 @@ use std::fmt::Write;
 pub enum Sx {
     N(u128),
     S(&'static str),
+    /// a text atom without spaces or parentheses (compact JSON)
+    Str(String),
     L(Vec<Sx>),
 }
 
@@ -15,6 +17,7 @@ impl Sx {
                 let _ = write!(out, "{}", v);
             }
             Sx::S(s) => out.push_str(s),
+            Sx::Str(s) => out.push_str(s),
             Sx::L(xs) => {
                 out.push('(');
                 for (i, x) in xs.iter().enumerate() {
